@@ -21,7 +21,7 @@ TRUSTED = ['the list of expression node classes is taken from the running Python
 ASSUMPTIONS = []
 
 NLEN = 10
-LEAK_MARKS = ('<class', '<function', '<built-in', '<module', ' object at 0x', '<bound method', '<method', '<slot wrapper', '<attribute')
+LEAK_MARKS = ('<class', '<function', '<built-in', '<module', ' object at 0x', '<generator object', ' at 0x', '<bound method', '<method', '<slot wrapper', '<attribute')
 
 
 def is_safe(v, depth=0):
@@ -139,6 +139,28 @@ def function_call(which, nargs):
         """
         args = [ast.Constant(value=x) for x in ['a', 1][:nargs]]
         r = _run(ast.Call(func=ast.Name(id=name, ctx=ast.Load()), args=args, keywords=[]), which)
+        return post(r[0] == 'err' or is_safe(r[1]))
+    return ob
+
+
+ARG_KINDS = {
+    'generator': '(r.item for r in orders)', 'rowgen': '(r for r in orders)', 'list': 'orders', 'row': 'orders[0]', 'date': 'date', 'listcomp': '[r.amount for r in orders]',
+}
+
+
+def function_call_arg(argkind, nargs):
+    """Every function name (symbolic, <= 13 chars) applied to a NON-scalar first argument - a generator expression, a list of rows, a
+    row, a date: an expression error, or plain data with no interpreter internals inside strings (no `<generator object ... at 0x...>`)."""
+    def ob(name: str) -> bool:
+        """
+        pre: len(name) <= 13
+        post: _
+        """
+        first = ast.parse(ARG_KINDS[argkind], mode='eval').body
+        args = [first] + [ast.Constant(value=x) for x in ['a', 'b'][:nargs - 1]]
+        r = _run(ast.Call(func=ast.Name(id=name, ctx=ast.Load()), args=args, keywords=[]), 'txn')
+        if r[0] == 'ok' and hasattr(r[1], 'gi_code'):
+            return post(is_safe(r[1]))
         return post(r[0] == 'err' or is_safe(r[1]))
     return ob
 
@@ -386,6 +408,10 @@ def obligations(tier, seed):
                               bounds=f'snippet {SNIPPETS[key]!r}; amount int, description <= 2 chars symbolic'))
     obs.append(Obligation(id='node-classes-covered', factory='node_classes_covered', engine='smt', twin=False, timeout=60, group='node-type closure',
                           bounds='every class in ALLOWED_NODES is exercised by a snippet (guards the closure argument against a widened whitelist)'))
+    for ak in ARG_KINDS:
+        for na in (1, 2, 3):
+            obs.append(Obligation(id=f'call-arg-{ak}-{na}', factory='function_call_arg', params={'argkind': ak, 'nargs': na}, timeout=to, group='function calls on non-scalar arguments',
+                                  bounds=f'symbolic function name <= 13 ASCII chars applied to {ARG_KINDS[ak]!r}' + (' and %d text argument(s)' % (na - 1) if na > 1 else '')))
     for i in range(len(IMMUT_SHAPES)):
         obs.append(Obligation(id=f'immut-{i}', factory='immutability', params={'i': i}, timeout=to, group='evaluation leaves tree, transaction and rows unchanged',
                               bounds=f'{IMMUT_SHAPES[i]!r} evaluated twice; identity snapshot of every AST node field, transaction item and row item'))
